@@ -163,6 +163,34 @@ def make_jobs(ctx):
             open(rp, 'wb').write(rb)
             gated(jobs, e2_job(ctx, '%s_ref%d' % (name, ri), m, script, opts=['-r', 'ref.wasm', '-f', '1', '-t', '2'], backends=['sat', 'kissat'], unwind=14 if name != 'cf' else 6, page=64,
                                harness_kw={'max_host_calls': 12}, extra_flags=['--unwindset', 'streq.0:26'], sample={'module': name, 'reference': refm}))
+    # statement shapes x emission modes: pretty printing (-p), debug lines (-g) and module prefixes (-m) change how EVERY kind of
+    # statement is written, so the targeted control-flow shapes of C03 (branches with carried values and extra operands, br_table
+    # with values, dead ends, locals groups), comparison idioms and a few memory/call/constant programs are each translated in
+    # the default mode, with -p, and with -g -m, and each translation is decided against the reference semantics
+    shapes = []
+    cfs = [{'call': 'f', 'assume': {0: '$ <= 3'}}]
+    bm = F.branch_matrix()
+    for i, (n, mm) in enumerate(bm):
+        if not ctx.quick or i % 5 == ctx.seed % 5:     # stride coprime to the matrix's inner period (6): all (operands, br/br_if) combinations
+            shapes.append((n, mm, cfs, dict(unwind=6, harness_kw={'max_host_calls': 8})))
+    for k in (range(4) if ctx.quick else range(40)):
+        shapes.append(('cf_%d' % k, F.control_flow(0, k), cfs, dict(unwind=6, harness_kw={'max_host_calls': 12})))
+    for oi, op in enumerate(F.comparison_ops(True) + F.comparison_ops(False)):
+        for fi, fo in enumerate(F.CMP_FOLLOWERS):
+            if (oi + fi + ctx.seed) % (12 if ctx.quick else 2) == 0:
+                shapes.append(('cmp_%s_%s' % (op.replace('.', '_'), fo), F.cmp_then(op, fo), [{'call': 'f'}], dict(unwind=6)))
+    for fam, kw in ((F.memory_family, dict(unwind=14, page=64)), (F.calls_family, dict(unwind=8)), (F.const_family, dict(unwind=14, page=64)), (F.instantiation_family, dict(unwind=14, page=64))):
+        lst = fam(ctx.seed, True)
+        for i, (n, mm, sc, hk) in enumerate(lst):
+            if 'shared' in n:
+                continue
+            if i % (9 if ctx.quick else 2) == ctx.seed % 2:
+                shapes.append((n, mm, sc, dict(kw, harness_kw=hk)))
+    for (n, mm, sc, kw) in shapes:
+        wasmvalid.validate(mm)
+        for oi, o in enumerate(([], ['-p'], ['-g', '-m'])):
+            gated(jobs, e2_job(ctx, 'shape_%s_o%d' % (n, oi), mm, sc, opts=o, backends=['sat', 'kissat'], extra_flags=['--unwindset', 'streq.0:26'],
+                               group='shape_%s' % n, sample={'program': n, 'options': o}, timeout=200 if ctx.quick else 900, **kw))
     # auxiliary, concrete: where did each function go under -r?  (the CBMC kernel of wasmSplitStaticAndDynamicFunctions - pointer walks over
     # arrays of 24-byte structs with memcmp - does not finish in 300 s / 50 GB on any back end; stated in DESIGN.md)
     import re
